@@ -1,0 +1,39 @@
+//go:build verif
+
+package ipv4
+
+// Multicast socket options (property C12: the settings a peer reports equal the kernel's).
+// The kernel is outside the verified code: its answer is whatever GetsockoptInt returns, and
+// what it is told is whatever SetsockoptInt is called with.
+
+//@ func ext:syscall.SetsockoptInt
+//@   trusted
+//@   modifies nothing
+//@ func ext:syscall.GetsockoptInt
+//@   trusted
+//@   modifies nothing
+
+//@ func SetMulticastLoop
+//@   prop C12
+//@   requires socket != nil
+//@   // IPPROTO_IP = 0, IP_MULTICAST_LOOP = 34: the kernel is told 1 for "loop", 0 otherwise
+//@   assert call syscall.SetsockoptInt: arg1 == 0 && arg2 == 34 && arg3 == (loop ? 1 : 0)
+
+//@ func GetMulticastLoop
+//@   prop C12
+//@   requires socket != nil
+//@   remember after call syscall.GetsockoptInt: kernelLoops = result0 != 0
+//@   assert call syscall.GetsockoptInt: arg1 == 0 && arg2 == 34
+//@   // the reported setting is the kernel's: non-zero means multicast packets are looped back
+//@   ensures [reports-kernel-state] result1 == nil ==> result0 == kernelLoops
+
+//@ func SetMulticastTTL
+//@   prop C12
+//@   requires socket != nil
+//@   // IP_MULTICAST_TTL = 33
+//@   assert call syscall.SetsockoptInt: arg1 == 0 && arg2 == 33 && arg3 == int(ttl)
+
+//@ func GetMulticastTTL
+//@   prop C12
+//@   requires socket != nil
+//@   assert call syscall.GetsockoptInt: arg1 == 0 && arg2 == 33
